@@ -21,8 +21,10 @@ Pure(c, L) == << <<c, L>> >>
 Edge(L)    == << <<3, 1>>, <<1, L - 2>>, <<3, 1>> >>                                       \* leading and trailing white space
 Mixed(L)   == << <<2, 1>>, <<4, 1>>, <<5, 1>>, <<3, 2>>, <<1, L - 10>>, <<5, 2>>, <<2, 2>>, <<4, 1>> >>
 BigLens    == {254, 255, 256}
+\* class 6 spells "_xABCD_" (seven characters that LOOK like an OOXML character escape; in a core property they are seven characters)
+EscLike(n) == << <<6, 7 * n>> >>
 TextsFull  == {<<>>} \cup {Pure(c, 1) : c \in 1..5} \cup {Pure(c, L) : c \in 1..5, L \in BigLens}
-              \cup {Edge(L) : L \in BigLens} \cup {Mixed(L) : L \in BigLens}
+              \cup {Edge(L) : L \in BigLens} \cup {Mixed(L) : L \in BigLens} \cup {EscLike(1), EscLike(2), <<<<1, 7>>, <<6, 7>>, <<1, 2>>>>}
 SetStr(p, v) == [op |-> "SetStr", p |-> p, v |-> v]
 
 D(y, m, d, H, M, S, us) == [y |-> y, m |-> m, d |-> d, H |-> H, M |-> M, S |-> S, us |-> us]
@@ -82,7 +84,7 @@ LxFrac == Lx("full", <<1999, 12, 31, 23, 59, 59>>, 3, Zone("off", Neg1, 8, 0))
 LxYmd  == Lx("ymd", <<2024, 2, 29, 0, 0, 0>>, 0, NoZone)
 \* orders of 2 assignments (quick): two properties of each schema kind (dc: SimpleLiteral, cp: CT_Keywords) and one more
 OrdersQuick ==
-  [str  |-> {SetStr(p, v) : p \in {"title", "keywords"}, v \in {<<>>, Mixed(255), Pure(1, 256)}} \cup {SetStr("author", Pure(5, 255))},
+  [str  |-> {SetStr(p, v) : p \in {"title", "keywords"}, v \in {<<>>, Mixed(255), Pure(1, 256)}} \cup {SetStr("author", Pure(5, 255)), SetStr("subject", EscLike(1))},
    date |-> {SetDate(p, v) : p \in {"created", "last_printed"}, v \in {Y999, Leap}} \cup {SetDate("modified", EndOfTime), BadDate("created", "date")},
    rev  |-> {SetRev("int", 7), SetRev("int", 0), SetRev("bool", 1)},
    lex  |-> {Load("created", LxYear), Load("last_printed", LxFrac), Load("modified", LxYmd)}]
